@@ -128,8 +128,8 @@ PROPS = {
         props_v="Props/C04.v",
         corr_v=["Corr/CheckSpdx.v", "Corr/CheckCdx.v", "Corr/CheckXlate.v"],
         n_quick=60, n_thorough=400,
-        explanation="PARTIAL. Theorems: the pipeline detect -> dispatch -> convert returns a document or an error for every declaration, every line list and every behaviour of the third-party decoder (a parameter), never a panic, both or neither; a CycloneDX result is always a closed graph; the conversion does not blow its input up (no more nodes than components / elements, edges plus roots = relationships); licence entries without a licence object are skipped. Oracle (the part no model reaches): every single schema fault (null, absent, four wrong types, empty, oversized, duplicated element, deep nesting, duplicated member) at up to n JSON paths of every SBOM in the repository under 80 kB and of writer output, plus truncations and random bytes, through reader.ParseStream with and without a stated format, under a 20 s watchdog; outcome classes document / error / panic / hang / both / neither / document without parts. Correspondence: for mutants the decoders accept, the real Unserialize against the model on the decoded structure.",
-        assumptions=["not proved: totality and running time of encoding/json, tools-golang and cyclonedx-go; nil entries inside decoded lists (the printers skip them, as the repaired code does); double faults are explored in the thorough tier only by sampling", "modelled: Model/Sniff.v (C06), Model/Spdx.v, Model/Cdx.v unserializers"],
+        explanation="PARTIAL. Theorems: the pipeline detect -> dispatch -> convert returns a document or an error for every declaration, every line list and every behaviour of the third-party decoder (a parameter), never a panic, both or neither; a CycloneDX result is always a closed graph; the conversion does not blow its input up (no more nodes than components / elements, edges plus roots = relationships); licence entries without a licence object are skipped; REFUTED for the concluded-licence string: n+1 licence entries give at least 2^n characters (known finding K14). Oracle (the part no model reaches): every single schema fault (null, absent, four wrong types, empty, oversized, duplicated element, deep nesting, duplicated member) at up to n JSON paths of every SBOM in the repository under 80 kB and of writer output, plus truncations and random bytes, through reader.ParseStream with and without a stated format, under a 20 s watchdog; double faults by sampling; scaling probes along six dimensions (parsed size and time against the cube of the input growth); outcome classes document / error / panic / hang / both / neither / document without parts. Correspondence: for mutants the decoders accept, the real Unserialize against the model on the decoded structure.",
+        assumptions=["not proved: totality and running time of encoding/json, tools-golang and cyclonedx-go; nil entries inside decoded lists (the printers skip them, as the repaired code does); double faults are sampled (a second fault on 6 single-fault mutants per document, 40 in the thorough tier), not enumerated", "modelled: Model/Sniff.v (C06), Model/Spdx.v, Model/Cdx.v unserializers"],
     ),
     "C05": dict(
         props_v="Props/C05.v",
